@@ -429,6 +429,25 @@ class CFG:
             self._dom = self._dominators(self.g, ('b', self.entry))
         return self._dom
 
+    def abnormal_exit_blocks(self):
+        """blocks that reach the exit without a normal return: they end in a call of a noreturn function, or are the failing arm
+        of an assert() (`cond ? (void)0 : __assert_fail(..)`: an empty block that falls into the exit)"""
+        abn = set()
+        for i, b in self.blocks.items():
+            if self.exit in [x for x in b['succ'] if x is not None] and \
+                    any(x.get('callee') in NORETURN for st in b['stmts'] for x in walk(st['s'])):
+                abn.add(i)
+        conds = [x for i, b in self.blocks.items() for st in b['stmts'] for x in walk(st['s']) if x.get('k') == 'ConditionalOperator']
+        for i, b in self.blocks.items():
+            if b.get('term') == 'ConditionalOperator' and 'cond' in b and len(b['succ']) == 2:
+                for x in conds:
+                    if x.get('ln') == b['cond'].get('ln') and show(x.get('cnd')) == show(b['cond']):
+                        for k, arm in ((0, 'l'), (1, 'r')):
+                            t = b['succ'][k]
+                            if t is not None and any(y.get('callee') in NORETURN for y in walk(x.get(arm))) and self.blocks[t]['succ'] == [self.exit]:
+                                abn.add(t)
+        return abn
+
     def pdom(self):
         """post-dominators (on the reversed edge-split graph, from the exit block)"""
         if self._pdom is None:
